@@ -119,6 +119,17 @@ Proof.
     assert (1 <= 2 ^ N.of_nat f) by (apply N.lt_pred_le, N.neq_0_lt_0, N.pow_nonzero; lia). nia.
 Qed.
 
+Theorem read_incr_complete chunk avail tot :
+  0 < chunk -> tot <= avail -> tot < 2 ^ 64 -> fst (read_incr chunk avail tot) = true.
+Proof.
+  intros Hc Ha Ht. unfold read_incr.
+  replace (avail <? N.min tot chunk) with false by (symmetry; apply N.ltb_ge; lia).
+  destruct (N.eq_dec tot 0) as [->|Hz].
+  - rewrite N.min_0_l. reflexivity.
+  - assert (1 <= N.min tot chunk) by lia.
+    apply incr_loop_complete; try lia.
+Qed.
+
 (* ------------------------------------------------------------------ compactindexsized: Open + Header.Load *)
 Record sized_guards := mk_sized_guards {
   g_hdr_len : bool;      (* Header.Load checks len(buf) >= 25 *)
